@@ -92,7 +92,7 @@ instrumentation)
 models)
   # unit tests of the harness's own models and tools (validator never stricter than the implementation,
   # automaton table, shrinker, reflective hasher), against the tree under test
-  ( cd "$VERIF/sim" && sed "s#=> /repo\$#=> $REPO#" go.mod > "$TMP/go.mod" && cat "$REPO/go.sum" go.sum | sort -u > "$TMP/go.sum" && go test -modfile="$TMP/go.mod" -count=1 ./model ./world ./tape ) || { echo "SELFTEST models: FAILED"; exit 1; }
+  ( cd "$VERIF/sim" && sed "s#=> /repo\$#=> $REPO#" go.mod > "$TMP/go.mod" && cat "$REPO/go.sum" go.sum | sort -u > "$TMP/go.sum" && go test -modfile="$TMP/go.mod" -count=1 ./model ./world ./tape ./props ) || { echo "SELFTEST models: FAILED"; exit 1; }
   echo "SELFTEST models: ok"
   ;;
 *)
